@@ -28,7 +28,9 @@ that preserve what the function does, each one local and syntactic):
       a proper prefix of it, or to another subscript / attribute of a proper prefix, and nothing is
       called before the last use of `x`;
   N12 locals (everything the function assigns, except its parameters) are renamed L0, L1, … in
-      order of first binding.
+      order of first binding;
+  N13 `t = <constant>; if C: …; t = B; …` (no else; neither C nor what precedes `t = B` reads t) is
+      `if C: …; t = B; … / else: t = <constant>`.
 
 Anything else is a different normal form and fails the obligation.
 
@@ -249,6 +251,27 @@ def _mentions(nodes, name):
     return False
 
 
+def _names_text(nodes):
+    """the access paths (unparsed names / attributes) occurring in the nodes"""
+    out = set()
+    for n in nodes:
+        for x in ast.walk(n):
+            if isinstance(x, (ast.Name, ast.Attribute)):
+                out.add(ast.unparse(x))
+    return out
+
+
+def _flag_pattern(body, i):
+    """is body[i], body[i+1] the flag shape of N8 (x = False; if C: …; x = True)?"""
+    s, nx = body[i], body[i + 1]
+    if not (isinstance(s.targets[0], ast.Name) and isinstance(nx, ast.If) and not nx.orelse and len(nx.body) > 1):
+        return False
+    last = nx.body[-1]
+    return (isinstance(last, ast.Assign) and len(last.targets) == 1 and isinstance(last.targets[0], ast.Name)
+            and last.targets[0].id == s.targets[0].id and isinstance(last.value, ast.Constant)
+            and last.value.value is True and _boolean_expr(nx.test))
+
+
 def _positive(test):
     """(positive test, flipped?)"""
     if isinstance(test, ast.UnaryOp) and isinstance(test.op, ast.Not):
@@ -319,6 +342,20 @@ def _rewrite_block(body, n10=True):
                 out.append(look)
                 i += 1
                 continue
+        # N13: t = <const>; if C: …; t = B; …   (no else; C and what precedes the assignment do not read t)
+        #      is   if C: …; t = B; … / else: t = <const>
+        if isinstance(s, ast.Assign) and len(s.targets) == 1 and isinstance(s.value, ast.Constant) \
+                and isinstance(s.targets[0], (ast.Name, ast.Attribute)) and i + 1 < len(body) \
+                and not (isinstance(s.value.value, bool) and s.value.value is False and _flag_pattern(body, i)):
+            tgt = ast.unparse(s.targets[0])
+            nx = body[i + 1]
+            if isinstance(nx, ast.If) and not nx.orelse and tgt not in _names_text([nx.test]):
+                k = next((j for j, b in enumerate(nx.body) if isinstance(b, ast.Assign) and len(b.targets) == 1
+                          and ast.unparse(b.targets[0]) == tgt), None)
+                if k is not None and tgt not in _names_text(nx.body[:k]) and tgt not in _names_text([nx.body[k].value]):
+                    out.append(ast.If(nx.test, nx.body, [s]))
+                    i += 2
+                    continue
         # N8: x = False; if C: S…; x = True
         if isinstance(s, ast.Assign) and len(s.targets) == 1 and isinstance(s.targets[0], ast.Name) \
                 and isinstance(s.value, ast.Constant) and s.value.value is False and i + 1 < len(body):
@@ -556,12 +593,181 @@ def extract(ctx):
                 if isinstance(n, ast.Assign) and ast.unparse(n.targets[0]) == '__slots__':
                     val = ast.unparse(n.value)
         slots.append((c, val if val is not None else '<none>'))
+    # the code around the accumulation (not transcribed statement by statement by the model, but what the
+    # model ASSUMES of it): how a target is iterated, what the constructors keep, the non-Group path of Fold
+    rows2 = []
+    rows, rows_main = rows2, rows
+    add('target_iter', ctx['find_def'](grp, 'target_iter'), grp, gconst)
+    add('Group.__init__', _method(_cls(grp, 'Group'), '__init__'), grp, gconst)
+    add('Sample.__init__', _method(_cls(grp, 'Sample'), '__init__'), grp, gconst)
+    add('Fold.__init__', _method(_cls(red, 'Fold'), '__init__'), red, rconst)
+    add('Fold.glomit', _method(_cls(red, 'Fold'), 'glomit'), red, rconst)
+    add('Fold._fold', _method(_cls(red, 'Fold'), '_fold'), red, rconst)
+    for c in ('Sum', 'Count', 'Flatten', 'Merge'):
+        add(c + '.__init__', _method(_cls(red, c), '__init__'), red, rconst)
+    rows = rows_main
+    # every method of the classes of Group mode (a new method is a new place for state / behaviour)
+    methods = []
+    for mod, names in ((grp, ('Group', 'First', 'Avg', 'Max', 'Min', 'Sample', 'Limit')),
+                       (red, ('Fold', 'Sum', 'Count', 'Flatten', 'Merge'))):
+        for c in names:
+            k = _cls(mod, c)
+            if k is None:
+                P.add('class %s not found' % c)
+                continue
+            for n in k.body:
+                if isinstance(n, (ast.FunctionDef, ast.AsyncFunctionDef)):
+                    methods.append((c, n.name))
+    sw, gw, mg, cs = _state_facts([('grouping', grp), ('reduction', red)])
     return [('GroupFacts', 'Group mode, statement by statement (function, nesting depth, normalised source)',
              [('grpStmts', 'List (String × Nat × String)', rows),
+              ('grpAround', 'List (String × Nat × String)', rows2),
+              ('grpMethods', 'List (String × String)', methods),
               ('grpSlots', 'List (String × String)', slots),
               ('grpGlobals', 'List (String × String)', _module_state(grp)),
               ('grpGlobalStmts', 'List String', _global_stmts(grp)),
+              ('stSelfWrites', 'List (String × String)', sw),
+              ('stGlobalWrites', 'List (String × String)', gw),
+              ('stMutableGlobals', 'List (String × String)', mg),
+              ('stClassState', 'List (String × String)', cs),
               ('tArith', 'List (String × String)', _t_arith(ctx, P))])]
+
+
+MUTATORS = {'append', 'extend', 'insert', 'pop', 'remove', 'clear', 'sort', 'reverse', 'update', 'setdefault',
+            'popitem', 'add', 'discard', 'difference_update', 'intersection_update', 'symmetric_difference_update',
+            '__setitem__', '__delitem__', '__setattr__', '__delattr__', 'appendleft', 'extendleft'}
+
+
+def _immutable_value(v):
+    """an immutable literal, or one of the sentinels (`make_sentinel(...)`: an object without state)"""
+    if _immutable_literal(v):
+        return True
+    if isinstance(v, ast.Tuple):
+        return all(_immutable_value(e) for e in v.elts)
+    return isinstance(v, ast.Call) and isinstance(v.func, ast.Name) and v.func.id == 'make_sentinel'
+
+
+def _base_name(e):
+    while isinstance(e, (ast.Attribute, ast.Subscript)):
+        e = e.value
+    return e.id if isinstance(e, ast.Name) else None
+
+
+def _self_attr(e, selfname):
+    """`self.a`, `self.a[...]`, `self.a.b` -> 'a'"""
+    path = []
+    while isinstance(e, (ast.Attribute, ast.Subscript)):
+        if isinstance(e, ast.Attribute):
+            path.append(e.attr)
+        e = e.value
+    if isinstance(e, ast.Name) and e.id == selfname and path:
+        return path[-1]
+    return None
+
+
+def _state_facts(modules):
+    """state OUTSIDE the accumulator tree, for all of grouping.py and reduction.py:
+    selfWrites      (Class.method, attr)  every store to / del of / mutating call on / setattr of `self.<attr>`
+                                          (any depth: self.a[k] = v, self.a.b = v, self.a.append(v)); `<dynamic>`
+                                          for setattr(self, …) / self.__dict__ / vars(self)
+    globalWrites    (function, name)      `global` / `nonlocal` rebinding, store into / del of / mutating call on
+                                          a module-level name that the function does not bind locally
+    mutableGlobals  (module, name)        module-level bindings whose value is not an immutable literal / sentinel
+                                          (imports, defs, classes and `X.__doc__ = …` are not bindings of state)
+    classState      (Class, name)         class-body bindings other than `__slots__`;
+                    (function, param)     default arguments that are not constants / names / attributes"""
+    sw, gw, mg, cs = [], [], [], []
+    for modname, tree in modules:
+        mod_names = set()
+        for n in tree.body:
+            if isinstance(n, ast.Assign):
+                for t in n.targets:
+                    for x in ast.walk(t):
+                        if isinstance(x, ast.Name):
+                            mod_names.add(x.id)
+                if not _immutable_value(n.value):
+                    for t in n.targets:
+                        tgt = ast.unparse(t)
+                        if not tgt.endswith('.__doc__'):
+                            mg.append((modname, tgt))
+            elif isinstance(n, (ast.AnnAssign, ast.AugAssign)):
+                mod_names.add(ast.unparse(n.target))
+                mg.append((modname, ast.unparse(n.target)))
+
+        def scan(fn, qual, selfname):
+            local = set(_params(fn))
+            for x in ast.walk(fn):
+                if isinstance(x, ast.Name) and isinstance(x.ctx, ast.Store):
+                    local.add(x.id)
+            declared = set()
+            for x in ast.walk(fn):
+                if isinstance(x, (ast.Global, ast.Nonlocal)):
+                    declared.update(x.names)
+                    for nm in x.names:
+                        gw.append((qual, nm))
+            local -= declared
+
+            def target(t):
+                for e in ([t] if not isinstance(t, (ast.Tuple, ast.List)) else t.elts):
+                    if isinstance(e, ast.Starred):
+                        e = e.value
+                    a = _self_attr(e, selfname) if selfname else None
+                    if a is not None:
+                        sw.append((qual, a))
+                    elif isinstance(e, (ast.Attribute, ast.Subscript)):
+                        b = _base_name(e)
+                        if b in mod_names and b not in local:
+                            gw.append((qual, b))
+            for x in ast.walk(fn):
+                if isinstance(x, ast.Assign):
+                    for t in x.targets:
+                        target(t)
+                elif isinstance(x, (ast.AugAssign, ast.AnnAssign)):
+                    target(x.target)
+                elif isinstance(x, ast.Delete):
+                    for t in x.targets:
+                        target(t)
+                elif isinstance(x, (ast.For, ast.comprehension)):
+                    target(x.target)
+                elif isinstance(x, ast.Call):
+                    f = x.func
+                    if isinstance(f, ast.Name) and f.id in ('setattr', 'delattr', 'vars') and x.args \
+                            and isinstance(x.args[0], ast.Name) and x.args[0].id == selfname:
+                        sw.append((qual, '<dynamic>'))
+                    if isinstance(f, ast.Attribute) and f.attr in MUTATORS:
+                        a = _self_attr(f.value, selfname) if selfname else None
+                        if a is not None:
+                            sw.append((qual, a))
+                        else:
+                            b = _base_name(f.value)
+                            if b in mod_names and b not in local:
+                                gw.append((qual, b))
+                elif isinstance(x, ast.Attribute) and x.attr == '__dict__' and isinstance(x.value, ast.Name) \
+                        and x.value.id == selfname:
+                    sw.append((qual, '<dynamic>'))
+            a = fn.args
+            for prm, d in list(zip(reversed(a.posonlyargs + a.args), reversed(a.defaults))) + \
+                    [(p_, d_) for p_, d_ in zip(a.kwonlyargs, a.kw_defaults) if d_ is not None]:
+                if not isinstance(d, (ast.Constant, ast.Name, ast.Attribute)):
+                    cs.append((qual, prm.arg))
+
+        for n in tree.body:
+            if isinstance(n, ast.FunctionDef):
+                scan(n, n.name, None)
+            elif isinstance(n, ast.ClassDef):
+                for b in n.body:
+                    if isinstance(b, (ast.FunctionDef, ast.AsyncFunctionDef)):
+                        prm = _params(b)
+                        static = any(isinstance(d, ast.Name) and d.id == 'staticmethod' for d in b.decorator_list)
+                        scan(b, n.name + '.' + b.name, prm[0] if prm and not static else None)
+                    elif isinstance(b, ast.Assign):
+                        for t in b.targets:
+                            if ast.unparse(t) != '__slots__':
+                                cs.append((n.name, ast.unparse(t)))
+                    elif isinstance(b, (ast.AnnAssign, ast.AugAssign)):
+                        cs.append((n.name, ast.unparse(b.target)))
+    dedup = lambda xs: list(dict.fromkeys(xs))
+    return dedup(sw), dedup(gw), dedup(mg), dedup(cs)
 
 
 def _module_state(tree):
